@@ -23,10 +23,11 @@ EXPLANATION = (
     "whose true branch raises SchemaErrors(schema_errors=error_handler.schema_errors) or drops rows; (R5) error_counts "
     "is one increment per collected error keyed by reason code and both backends derive the check identifier by the "
     "same chain; (R6) where a parsing call is fenced by `except E`, every schema exception class in the raise-set of "
-    "the resolved callees is caught by E. NOT decided: equality of failure_cases with the set of offending cells."
+    "the resolved callees is caught by E; (R7) every site writing the `column` key of reported failure cases takes the "
+    "component name as is - None tests only, never a truthiness fallback (names 0 / '' are legal). NOT decided: equality of failure_cases with the set of offending cells."
 )
 LEVEL_RULE = "one obligation per handler / lazy use / validate method / fenced call"
-FLOORS = {"R1": 4, "R2": 20, "R3": 12, "R4": 6, "R5": 3, "R6": 6}
+FLOORS = {"R1": 4, "R2": 20, "R3": 12, "R4": 6, "R5": 3, "R6": 6, "R7": 5}
 
 EH = "pandera/api/base/error_handler.py::ErrorHandler"
 EMPTY_HANDLERS_OK = {
@@ -321,7 +322,67 @@ def r6_fences(ctx):
                            f.loc(t))
 
 
+NAMEISH = ("name", "column_name", "col_name", "column")
+
+
+def _nameish(e) -> bool:
+    return (isinstance(e, ast.Attribute) and e.attr in NAMEISH) or (isinstance(e, ast.Name) and e.id in NAMEISH)
+
+
+def r7_column_attribution(ctx):
+    """Every site writing the `column` key of reported failure cases takes the component name as is: the value (and
+    the guards of its local definitions) may test a name against None, never for truthiness - column keys 0 / "" /
+    False are legal names of positional levels and columns."""
+    ix = ctx.ix
+    sites = 0
+    for f in ix.funcs.values():
+        if not f.module.path.startswith(("pandera/backends/pandas/", "pandera/backends/polars/", "pandera/api/base/error_handler.py")):
+            continue
+        cfg = None
+        for c in calls_in(f.node):
+            vals = []
+            v = kw(c, "column")
+            if v is not None and callee_last(c) in ("assign", "with_columns", "SchemaError", "lit"):
+                vals.append(v)
+            for d in ast.walk(c) if callee_last(c) in ("append", "from_records", "DataFrame") else ():
+                if isinstance(d, ast.Dict):
+                    for k, dv in zip(d.keys, d.values):
+                        if isinstance(k, ast.Constant) and k.value == "column":
+                            vals.append(dv)
+            for v in vals:
+                sites += 1
+                ctx.touched(f)
+                cfg = cfg or cfg_of(f.node)
+                bad = None
+                exprs, seen = [(v, enclosing_stmt(c))], set()
+                while exprs and bad is None:
+                    e, st = exprs.pop()
+                    for x in ast.walk(e):
+                        if isinstance(x, ast.BoolOp) and any(_nameish(o) for o in x.values[:-1]):
+                            bad = f"`{txt(x)}` falls through on a falsy name"
+                        elif isinstance(x, ast.IfExp) and _nameish(x.test):
+                            bad = f"`{txt(x)}` tests a name for truthiness"
+                        elif isinstance(x, ast.Name) and x.id not in seen and not isinstance(getattr(x, "ctx", None), ast.Store):
+                            seen.add(x.id)
+                            for s2 in function_stmts(f):
+                                if isinstance(s2, ast.Assign) and any(isinstance(t, ast.Name) and t.id == x.id for t in s2.targets):
+                                    exprs.append((s2.value, s2))
+                                    n2 = cfg.node_of(s2)
+                                    for t, pol in (cfg.guards(n2.id) if n2 is not None else ()):
+                                        tt = t
+                                        while isinstance(tt, ast.UnaryOp) and isinstance(tt.op, ast.Not):
+                                            tt = tt.operand
+                                        if _nameish(tt):
+                                            bad = f"`{txt(s2)[:50]}` is chosen under the truthiness test `{txt(t)}`"
+                ctx.ob("R7", f, f"{f.short}: failure-case column `{txt(v)[:60]}`", bad is None,
+                       "component name taken as is (None tests only)" if bad is None else
+                       bad + ": a component named 0 / '' (e.g. the first unnamed MultiIndex level) is reported under another column, "
+                       "so the lazy report no longer names the offending column", f.loc(v))
+    return sites
+
+
 def run(ctx):
+    r7_column_attribution(ctx)
     r1_collect_error(ctx)
     r2_no_swallow(ctx)
     r3_lazy_uses(ctx)
